@@ -32,6 +32,11 @@ pub fn gen_system(rng: &mut Rng, class: &str) -> System {
             with_contradictions(rng, base)
         }
         "malformed" => gen_malformed(rng),
+        "disparity" => gen_disparity(rng),
+        "conflict" => {
+            let b = gen_planted(rng, 8, 1e-2, &SHAPES);
+            with_mild_conflicts(rng, b)
+        }
         "caps" => {
             let mut s = gen_planted(rng, 6, 0.2, &SHAPES);
             s.max_iterations = *rng.pick(&[0, 1, 2, 3, 4, 6, 10, 35, 200]);
@@ -52,7 +57,7 @@ fn main() {
         .get(4)
         .map(|s| s.split(',').map(|x| x.to_owned()).collect())
         .unwrap_or_else(|| {
-            ["planted", "linear", "prio", "contra", "malformed", "caps"]
+            ["planted", "linear", "prio", "contra", "malformed", "caps", "conflict", "disparity"]
                 .iter()
                 .map(|s| s.to_string())
                 .collect()
